@@ -6,6 +6,7 @@ R16.2 trait obligations (witnesses compiled against the serde configuration): Va
       HashMapContext<DefaultNumericTypes> are Serialize + DeserializeOwned, Node is DeserializeOwned;
 R16.3 the impls on Value / HashMapContext are the derived ones; HashMapContext's derived serialize emits exactly the fields
       `variables` and `without_builtin_functions` (never `functions`), and the derived deserialize fills `functions` with Default.
+R16.4 the derived impls delegate nothing to hand-written code (no `serde(with = ..)`-style codec on a field or variant).
 Not decided: byte-exact float round trips (depends on the data format chosen by the user)."""
 from absint import Interp, SYM, C, ADT, OK, ERR, Fork, fmt, is_adt, Budget
 from mirlib import short, path_endswith, def_roots, op_place, resolve_place
@@ -106,3 +107,19 @@ def run(ctx):
                             good = bool(roots) and all(r[1] == 'term' and r[2]['callee']['name'] == 'default' for r in roots)
                         ctx.check(good, 'R16.3', 'HashMapContext::deserialize:%s:functions' % f.name, 'functions-default', 'a deserialized context has no functions: the field is filled with Default::default()', span=st.get('span'))
     ctx.floor('R16.3', 'deserialize_constructions', n, 2)
+    # R16.4 the derived impls delegate nothing to hand-written code: no item that serde_derive generated for Value / HashMapContext (the
+    # impls, their visitors and helper types, all inside the anonymous `const _`) calls a crate function outside those generated items.
+    # A `#[serde(with / serialize_with / deserialize_with / from / into ...)]` attribute would: the wire form of that part of the
+    # value would then be whatever that code writes (a float printed with a fixed number of decimals, say).
+    gen = [f for f in prog.fns if '::_::' in f.path and f.path.split('::')[0].lstrip('<') in ('value', 'context') and 'feature_serde::NodeVisitor' not in f.path]
+    bad = []
+    for f in gen:
+        for _b, t in f.calls():
+            for d_ in (t['callee']['def'] if t['callee'].get('local') else None, (t['callee'].get('resolved') or {}).get('def') if (t['callee'].get('resolved') or {}).get('local') else None):
+                if d_ and '::_::' not in d_:
+                    g_ = prog.by_path.get(d_)
+                    if g_ is not None and g_.j.get('derived'):
+                        continue
+                    bad.append('%s calls %s' % (short(f.path)[:70], short(d_)))
+    ctx.check(not bad, 'R16.4', 'derived-impls:no-delegation', 'custom-codec', 'the serde impls derived for Value and HashMapContext call no hand-written crate code (found %s)' % sorted(set(bad))[:3])
+    ctx.floor('R16.4', 'derive_generated_items', len(gen), 15)
